@@ -94,13 +94,22 @@ func NewPositionRange(lines []string, val *yaml.Node, minColumn int) (offsets Po
 	}
 
 	var needIndex, lineSpaces, valSpaces int
+	var consumed bool
 	need := val.Value[needIndex]
 	lineIndex := val.Line
 	columnIndex := val.Column
 
+	// Block scalars: the value starts on the line after the `|` / `>` header,
+	// the header line can only hold indicators and a comment.
+	if val.Style&(yaml.LiteralStyle|yaml.FoldedStyle) != 0 {
+		lineIndex++
+		columnIndex = minColumn
+	}
+
 	for lineIndex <= len(lines) {
-		// Append new line but only if we already have any tokens.
-		if len(offsets) > 0 {
+		// Append new line but only if we already have any tokens and the line break
+		// is a character of the value (folding turns N+1 line breaks into N).
+		if len(offsets) > 0 && consumed {
 			offsets = appendPosition(offsets, lineIndex-1, len(lines[lineIndex-2])+1)
 		}
 
@@ -109,6 +118,14 @@ func NewPositionRange(lines []string, val *yaml.Node, minColumn int) (offsets Po
 		}
 
 		columnIndex = min(len(lines[lineIndex-1]), columnIndex)
+		// Continuation lines indented by less than two spaces: start where the content starts,
+		// keeping room for the leading spaces that belong to the value.
+		if lineIndex > val.Line {
+			first := countLeadingSpace(lines[lineIndex-1]) + 1 - countLeadingSpace(val.Value[needIndex:])
+			if first < columnIndex {
+				columnIndex = max(1, first)
+			}
+		}
 
 		lineSpaces = countLeadingSpace(lines[lineIndex-1][columnIndex-1:])
 		valSpaces = countLeadingSpace(val.Value[needIndex:])
@@ -131,7 +148,9 @@ func NewPositionRange(lines []string, val *yaml.Node, minColumn int) (offsets Po
 		lineIndex++
 		columnIndex = minColumn
 
+		consumed = false
 		if need == ' ' || need == '\n' {
+			consumed = true
 			needIndex++
 			if needIndex >= len(val.Value) {
 				goto END
